@@ -103,7 +103,17 @@ type propConf struct {
 	Assume     []string
 }
 
-const verifDir = "/verif"
+// verifDir is the directory that holds bin/, sim/, evidence/ (the parent of the executable's directory).
+var verifDir = func() string {
+	if exe, err := os.Executable(); err == nil {
+		if d := filepath.Dir(filepath.Dir(exe)); d != "/" && d != "." {
+			if _, err := os.Stat(filepath.Join(d, "sim", "go.mod")); err == nil {
+				return d
+			}
+		}
+	}
+	return "/verif"
+}()
 
 var (
 	fProp     = flag.String("prop", "", "property id")
